@@ -245,6 +245,11 @@ func init() {
 		})
 	}
 	Registry["C16"] = func(c *Ctx) {
+		// first the filter itself, byte for byte against the Lean model (hash, bloom generate/contains) …
+		runC16B(c)
+		rule1 := c.Res.Rule
+		defer func() { c.Res.Rule = rule1 + " || DB level: " + c.Res.Rule }()
+		// … then whole DB programs replayed under different filter settings
 		runPlan(c, progPlan{
 			weights: DefaultWeights, checks: ProgChecks{}, nprogs: [2]int{100, 1000}, nops: 260, cmps: []string{"bytewise", "bytewise", "reverse"},
 			mutate: func(r *rng.R, o *gen.Opts) { o.FilterBits = 0 },
